@@ -267,6 +267,8 @@ fn main() {
     let deadline = Instant::now() + Duration::from_secs_f64((run.remaining_s() - run.tier.pick(4.0, 30.0)).max(1.0));
 
     // budget probes first: they are few and must never be cut by the deadline
+    // (their results are merged last so that small cases are reported first)
+    let probe_tally;
     {
         let mut t = Tally::default();
         let probes = budget_probes();
@@ -287,7 +289,7 @@ fn main() {
             }
             t.distinct.push(util::fnv64(desc.as_bytes()));
         }
-        t.merge_into(&mut run);
+        probe_tally = t;
     }
 
     let mut completed = 0;
@@ -310,6 +312,7 @@ fn main() {
         }
         completed = i + 1;
     }
+    probe_tally.merge_into(&mut run);
     run.set("depth_completed", json!(completed));
     run.set("depth_target", json!(max_depth));
 
